@@ -482,3 +482,45 @@ Proof.
   destruct (run_draws_partial_ok c cols rows _ _ _ Hc HS eq_refl eq_refl Hok) as (s' & t' & E' & _ & HL).
   rewrite E in E'. inversion E'; subst. apply HL. apply last_opt_snoc.
 Qed.
+
+(* ---------- reachable histories in partial display mode, including abandoned frames ---------- *)
+Lemma syncp_abandoned c s t cols rows content cursor toks s' :
+  cfg_ok c -> SyncP c s t -> t_cols t = cols -> t_rows t = rows ->
+  canvas_ok c cols rows content -> cursor_ok cols rows cursor ->
+  draw_screen c s cols rows content cursor false true = Ok (toks, s') ->
+  SyncP c (ack s') (run t toks) /\ t_grid (run t toks) = t_grid t /\ t_cols (run t toks) = cols /\ t_rows (run t toks) = rows.
+Proof.
+  intros Hc HS Hcols Hrows Hcan Hcur Hd.
+  destruct (draw_paints_partial_lemma c s t cols rows content cursor Hc HS Hcols Hrows Hcan Hcur) as (toks0 & s0 & E & _).
+  destruct HS as (ru & H1 & H2 & H3 & H4 & H5 & H6 & H7 & H8 & H9 & H10 & H11 & H12 & H13 & H14).
+  destruct (draw_interrupted_ok c s cols rows content cursor toks0 s0 H3 E) as (s2 & E2 & B1 & B2 & B3 & B3' & B4).
+  rewrite E2 in Hd. inversion Hd; subst toks s'. clear Hd.
+  destruct (s_g1 s) eqn:G; cbn [run fold_left step].
+  - splits; auto. apply (mk_SyncP _ _ _ ru); cbn; auto; try congruence. rewrite B1. congruence.
+  - splits; auto. apply (mk_SyncP _ _ _ ru); cbn; auto; try congruence. rewrite B1. congruence.
+Qed.
+
+Lemma reachp_inv c s t last : cfg_ok c -> ReachP c s t last ->
+  SyncP c s t /\ (forall content cursor, last = Some (content, cursor) -> PaintsPartial c s t content cursor).
+Proof.
+  intros Hc R. induction R as
+    [cols rows Hcols Hrows | s t last content cursor toks s' R IH Hcan Hcur Hd | s t last R IH
+     | s t last content cursor toks s' R IH Hcan Hcur Hd].
+  - split; [apply syncp_start; assumption|intros; discriminate].
+  - destruct IH as [HS _].
+    destruct (draw_paints_partial_lemma c s t _ _ content cursor Hc HS eq_refl eq_refl Hcan Hcur)
+      as (toks0 & s0 & E & HP & HS' & _).
+    rewrite E in Hd. inversion Hd; subst toks0 s0. split; [exact HS'|].
+    intros c0 cur0 H. inversion H; subst. exact HP.
+  - destruct IH as [HS _]. split; [apply syncp_clear; exact HS|intros; discriminate].
+  - destruct IH as [HS _].
+    destruct (syncp_abandoned c s t _ _ content cursor toks s' Hc HS eq_refl eq_refl Hcan Hcur Hd) as (HS' & _).
+    split; [exact HS'|intros; discriminate].
+Qed.
+
+Theorem partial_history_paints_lemma c s t content cursor :
+  cfg_ok c -> ReachP c s t (Some (content, cursor)) -> PaintsPartial c s t content cursor.
+Proof. intros Hc R. apply (reachp_inv c s t _ Hc R). reflexivity. Qed.
+
+Theorem partial_history_sync_lemma c s t last : cfg_ok c -> ReachP c s t last -> SyncP c s t.
+Proof. intros Hc R. apply (reachp_inv c s t last Hc R). Qed.
